@@ -1,2 +1,40 @@
-From Coq Require Import List ZArith.
-From Gosk Require Import Base.Bytes Spec.X86.
+(** C01 - emitted bytes decode to exactly the source instruction.
+    [ok01 (m, st)]: the model assembles the one-statement program [st] in mode m without
+    diagnostic and the bytes, decoded by the ISA specification Spec/X86.v under mode m, are exactly
+    the instruction Spec/Denote.v says the statement means (same operation, registers in the same
+    roles, operand size, immediate modulo the operand width) with exactly the emitted length.
+    Closed by computation over the FindEncoding table that is re-tabulated from the implementation
+    on every run: ALL 8 registers of each width in BOTH positions for MOV and the six ALU operations,
+    every register with boundary immediates in the cells where the prefix decision is right, the
+    stack and port forms, in both modes.  Memory operands: C02.  The cells left out are exactly the
+    known findings (refuted below on the model). *)
+From Coq Require Import List ZArith String Bool.
+From Gosk Require Import Base.Bytes Model.Ast Model.Asm Model.X86Enc Model.Encoder Spec.X86 Spec.Denote Check.C01 Lemmas.SweepLemmas.
+Import ListNotations.
+Local Open Scope Z_scope.
+
+Theorem C01_reg_reg : forall c, In c sweep_rr -> ok01 c = true.
+Proof. apply forallb_forall. exact sweep_rr_ok. Qed.
+Print Assumptions C01_reg_reg.
+
+Theorem C01_reg_imm : forall c, In c sweep_ri -> ok01 c = true.
+Proof. apply forallb_forall. exact sweep_ri_ok. Qed.
+Print Assumptions C01_reg_imm.
+
+Theorem C01_stack : forall c, In c sweep_stack -> ok01 c = true.
+Proof. apply forallb_forall. exact sweep_stack_ok. Qed.
+Theorem C01_port : forall c, In c sweep_port -> ok01 c = true.
+Proof. apply forallb_forall. exact sweep_port_ok. Qed.
+Print Assumptions C01_port.
+
+Example C01_sweep_sizes : (Datatypes.length sweep_rr, Datatypes.length sweep_stack) = (2688%nat, 64%nat).
+Proof. vm_compute. reflexivity. Qed.
+
+(* outside the domain, on the faithful model: MOV AX,0x8000 gets a 66h prefix in 16-bit mode and MOV AX,DS encodes BX *)
+Theorem C01_imm_class_prefix_refuted : model_bytes 16 (SMnem "MOV" [ident "AX"; num 32768])%string = Some [102; 184; 0; 128]
+  /\ check_c01 (16, SMnem "MOV" [ident "AX"; num 32768], [102; 184; 0; 128])%string <> 0.
+Proof. split; vm_compute; congruence. Qed.
+Theorem C01_mov_r16_sreg_refuted : model_bytes 16 (SMnem "MOV" [ident "AX"; ident "DS"])%string = Some [140; 219]
+  /\ check_c01 (16, SMnem "MOV" [ident "AX"; ident "DS"], [140; 219])%string <> 0.
+Proof. split; vm_compute; congruence. Qed.
+Print Assumptions C01_mov_r16_sreg_refuted.
